@@ -252,3 +252,45 @@ func W7Positions(maxLen int, sink Sink) {
 		}
 	}
 }
+
+// W7Triples: every sequence of 2, 3 and 4 unicode escapes over boundary code units of each
+// class (non-surrogate, high, low): pairing decisions are made with look-ahead, so a mistake
+// can depend on what FOLLOWS a non-pairing pair (seeded change C06r3-m1 replaced two
+// non-pairing surrogates together and so broke a pair that started at the second one).
+func W7Triples(sink Sink) {
+	units := []int{0x0041, 0xd7ff, 0xd800, 0xdbff, 0xdc00, 0xdfff, 0xe000, 0xd83d, 0xde00}
+	c := &h.Case{Family: "W7x"}
+	c.DescFn = func(c *h.Case) string { return fmt.Sprintf("escape sequence #%d of length %d", c.P[0], c.P[1]) }
+	buf := make([]byte, 0, 64)
+	n := 0
+	var rec func(prefix []int, left int)
+	rec = func(prefix []int, left int) {
+		if left == 0 {
+			for shape := 0; shape < 2; shape++ {
+				buf = append(buf[:0], '"')
+				if shape == 1 {
+					buf = append(buf, 'a')
+				}
+				for i, u := range prefix {
+					buf = u4esc(buf, u, (i+n)%3)
+				}
+				if shape == 1 {
+					buf = append(buf, 'z')
+				}
+				buf = append(buf, '"')
+				c.Input = buf
+				c.Desc = ""
+				c.P = [4]int{n, len(prefix), 0, 0}
+				n++
+				sink(c)
+			}
+			return
+		}
+		for _, u := range units {
+			rec(append(prefix, u), left-1)
+		}
+	}
+	for L := 2; L <= 4; L++ {
+		rec(nil, L)
+	}
+}
